@@ -18,6 +18,15 @@ def run(ctx):
     recs, disc = lc.gather_ticks(ctx)
     recs = [r for r in recs if r["kind"] == "ticks"]
     lc.check(ctx, "LinC13.cfg", recs, "C13_")
+    # conformance of the operational tick model (LinTicks.Steps) with the observed tick lists: drift only
+    drift, st = core.validate_records("LinTrace", "LinDrift.cfg", recs, per_shard=400)
+    ctx.states += st["distinct"]
+    ctx.transitions += st["generated"]
+    ctx.extra["operational_model_conformance"] = {"tick_lists_compared": len(recs), "explained_by_LinTicks.tla": len(recs) - len(drift),
+                                                  "spec_drift": len(drift)}
+    if drift:
+        ctx.notes.append("spec drift: %d tick lists are not reproduced by the operational model (first: %s)"
+                         % (len(drift), json.dumps(recs[drift[0][0]])[:300]))
     ctx.evaluations += len(recs)
     ctx.nontrivial += len({json.dumps([r["dom"], r["m"]]) for r in recs if len(r["tq"]) >= 2})
     ctx.extra["discarded_outside_32bit"] = disc
